@@ -52,6 +52,7 @@ class Knobs:
         self.p_group = 0.25
         self.p_group_alloc = 0.08
         self.p_twin = 0.2
+        self.p_month = 0.07
         self.p_gvac = 0.2
         self.aligned_only = True      # calendars / starts / gaps multiples of the resolution
         self.forward_only = False
@@ -124,6 +125,8 @@ def gen_project(rng, k=None):
     if not k.aligned_only and pick(rng, 0.3):
         start += rng.choice([9 * H + 20 * 60, 13 * 60, 30 * 60])
     p = {"start": start, "dur": [rng.choice(k.dur_weeks), "w"], "G": G}
+    if pick(rng, k.p_month):
+        p["dur"] = [rng.choice([1, 1, 2]), "m"]       # `+1m`: the declared end depends on the calendar month
     if not k.forward_only and pick(rng, k.p_alap):
         p["sched"] = "alap"
     end = A.end_of(p)
